@@ -130,11 +130,13 @@ class ProgressIndicator(object):
 
         try:
             yield self
-        except (Exception, KeyboardInterrupt):
-            self._io.write_line("")
-
+        except BaseException:
+            # Whatever ends the body (sys.exit() included): the spinner is
+            # stopped before anything else is written
             self._auto_running.set()
             self._auto_thread.join()
+
+            self._io.write_line("")
 
             raise
 
